@@ -20,7 +20,9 @@ a = ap.parse_args()
 START = time.time()
 col = vlib.Collector()
 lock = threading.Lock()
-scratch = tempfile.mkdtemp(prefix="vclients-", dir=os.path.join(a.verif, "harness", "run"))
+_run = os.path.join(os.path.dirname(os.path.dirname(os.path.abspath(__file__))), "harness", "run")
+os.makedirs(_run, exist_ok=True)
+scratch = tempfile.mkdtemp(prefix="vclients-", dir=_run)
 
 
 class LockedCol:
